@@ -624,7 +624,7 @@ macro_rules! enum_debug {
 		}
 	};
 }
-enum_debug!(Mem: M, R, PM, PR, PPM, PPR, WM, WR, O, BoxedV, RefV, RetryV, OwnedO, OwnedZ, BoxedO, RetryO, RefO, PBoxedV, PRetryV, POwnedO);
+enum_debug!(Mem: M, R, PM, PR, PPM, PPR, WM, WR, O, V, BoxedV, RefV, RetryV, OwnedO, OwnedZ, BoxedO, RetryO, RefO, PBoxedV, PRetryV, POwnedO);
 enum_debug!(OMem: M, R, PM, PR, PPM, PPR, Owned, Boxed, Retry, POwned);
 enum_debug!(MemG: M, R, PM, PR, PPM, PPR, O, V, VO, PV, PVO);
 enum_debug!(OMemG: M, R, PM, PR, PPM, PPR, VO, PVO);
